@@ -1,0 +1,101 @@
+//go:build verif
+
+package packet
+
+// Ghost vocabulary of the contract harnesses (build tag verif only).
+// govc gives these functions their logical meaning; the Go bodies are what a
+// replayed counterexample executes.
+
+type verifFailure struct{ kind, msg string }
+
+func (v verifFailure) Error() string { return "verif " + v.kind + " failed: " + v.msg }
+
+// vRequires states a precondition (assumed when the harness is verified,
+// proved at every call site when the contract is applied).
+func vRequires(b bool) {
+	if !b {
+		panic(verifFailure{"requires", ""})
+	}
+}
+
+// vEnsures states a postcondition (proved when the harness is verified,
+// assumed at call sites).
+func vEnsures(b bool) {
+	if !b {
+		panic(verifFailure{"ensures", ""})
+	}
+}
+
+// vAssert states a lemma conclusion.
+func vAssert(b bool) {
+	if !b {
+		panic(verifFailure{"assert", ""})
+	}
+}
+
+// vAssume adds an unchecked assumption (only allowed in verif_extern_ contracts).
+func vAssume(b bool) {
+	if !b {
+		panic(verifFailure{"requires", "assume"})
+	}
+}
+
+// vCanary marks a point that must be reachable under the hypotheses in force.
+func vCanary() {}
+
+// vUnreachable marks a point that must not be reachable.
+func vUnreachable() { panic(verifFailure{"unreachable", ""}) }
+
+// vForall is a bounded universal quantifier over lo <= i < hi.
+func vForall(lo, hi int, f func(i int) bool) bool {
+	for i := lo; i < hi; i++ {
+		if !f(i) {
+			return false
+		}
+	}
+	return true
+}
+
+// vExists is a bounded existential quantifier over lo <= i < hi.
+func vExists(lo, hi int, f func(i int) bool) bool {
+	for i := lo; i < hi; i++ {
+		if f(i) {
+			return true
+		}
+	}
+	return false
+}
+
+// vSameRegion: a and b are views of the same backing array.
+func vSameRegion(a, b []byte) bool {
+	if cap(a) == 0 || cap(b) == 0 {
+		return cap(a) == cap(b)
+	}
+	return &a[:cap(a)][cap(a)-1] == &b[:cap(b)][cap(b)-1]
+}
+
+// vOffset: index of a[0] relative to b[0] (meaningful when vSameRegion(a, b)).
+func vOffset(a, b []byte) int { return cap(b) - cap(a) }
+
+// vNoAlias: the capacity ranges of a and b do not overlap.
+func vNoAlias(a, b []byte) bool {
+	if cap(a) == 0 || cap(b) == 0 {
+		return true
+	}
+	if !vSameRegion(a, b) {
+		return true
+	}
+	return false
+}
+
+// vIsFreshRegion: the backing array of a was allocated during the call.
+func vIsFreshRegion(a []byte) bool { return true }
+
+// vModifiesBytes declares that the target may write s[0:len(s)] (and no other byte memory).
+func vModifiesBytes(s []byte) {}
+
+// vModifiesAll declares that the target may write any memory.
+func vModifiesAll() {}
+
+// vAllocs is the ghost counter of SSA-level allocations.
+func vAllocs() uint64 { return 0 }
